@@ -187,6 +187,18 @@ def one_path(E, ctx, prog, desc_base, raising=False):
             fails.append({"kind": "frontend-error", "signature": f"frontend:prune={prune}:{exc_signature(st[1])}", "detail": repr(st[1])[:200]})
             return fails, "error"
         variants.append((prune, st[1]))
+    # other input forms (source string, function object) and repeated conversion in the same process
+    for label, st in prog.cfg_forms():
+        if st[0] == "ok":
+            variants.append((label, st[1]))
+        elif st[0] == "error":
+            fails.append({"kind": "frontend-error", "signature": f"frontend:form={label.split('#')[0]}:{exc_signature(st[1])}",
+                          "detail": f"conversion {label} of the same function: {st[1]!r}"[:200]})
+            return fails, "error"
+        else:
+            fails.append({"kind": "frontend-error", "signature": f"frontend:form={label.split('#')[0]}:refused-unlike-ast-list-form",
+                          "detail": f"conversion {label} refused a function the AST-list form accepts"})
+            return fails, "error"
     if E is not None:
         args, argvars = s2.sym_args(E)
         env1 = s2.Env(E, raising=raising)
@@ -279,6 +291,13 @@ def replay(desc):
             st = prog.cfg(prune)
             if st[0] == "error":
                 fails.append({"kind": "frontend-error", "signature": f"frontend:prune={prune}:{exc_signature(st[1])}", "detail": repr(st[1])[:200]})
+                return fails
+        for label, st in prog.cfg_forms():
+            if st[0] == "error":
+                fails.append({"kind": "frontend-error", "signature": f"frontend:form={label.split('#')[0]}:{exc_signature(st[1])}", "detail": repr(st[1])[:200]})
+                return fails
+            if st[0] == "refused":
+                fails.append({"kind": "frontend-error", "signature": f"frontend:form={label.split('#')[0]}:refused-unlike-ast-list-form", "detail": label})
                 return fails
         try:
             errs = census(prog)
